@@ -477,6 +477,15 @@ def _install_observer(ms):
             _TL.iter_started = False
 
     ms._sample_chain = observed  # noqa: SLF001
+    # the adapter HamiltonianMonteCarlo.sample_chains creates by default is observed too
+    real_da = ms.DualAveragingStepSizeAdapter
+    if not getattr(real_da, "_verif_wrapped", False):
+        def _default_adapter(*a, **k):
+            return RecordingAdapter(real_da(*a, **k), "dual#default")
+
+        _default_adapter._verif_wrapped = True  # noqa: SLF001
+        _default_adapter._real = real_da  # noqa: SLF001
+        ms.DualAveragingStepSizeAdapter = _default_adapter
     return real
 
 
@@ -695,6 +704,13 @@ def run_scenario_raw(scn) -> Record:
             kwargs["memmap_path"] = tmpdir
         rec.system = system
         rec.sampler = sampler
+        _t0 = list(sampler.transitions.values())[-1] if scn["sampler"] != "generic" else sampler.transitions["rw"]
+        _integ = getattr(_t0, "integrator", None)
+        rec.initial_params = {
+            "step_size": None if _integ is None else _integ.step_size,
+            "metric": "n/a" if system is None else metric_fingerprint(system),
+            "scale": getattr(_t0, "scale", None),
+        }
         with procsim.installed(sim, disk):
             real_sc = _install_observer(ms)
             try:
@@ -754,6 +770,8 @@ def run_scenario_raw(scn) -> Record:
             finally:
                 if real_sc is not None:
                     ms._sample_chain = real_sc  # noqa: SLF001
+                if getattr(ms.DualAveragingStepSizeAdapter, "_verif_wrapped", False):
+                    ms.DualAveragingStepSizeAdapter = ms.DualAveragingStepSizeAdapter._real  # noqa: SLF001
     except procsim.SimAbort:
         rec.outcome = "no-return:" + str(sim.aborted if sim else "?")
     finally:
